@@ -87,9 +87,41 @@ func Add(a, b Val, bounds func(*Sym) (lo, hi *big.Int, ok bool)) (Val, []Flag) {
 	return r.norm(), flags
 }
 
+// isBorrowCompensation2 recognises the other spelling  (x + (((x - y) >> (W-1)) << k)) - y.
+func isBorrowCompensation2(a, b Val) (k int, x, y *Sym, ok bool) {
+	if a.Sym == nil || b.Sym == nil || a.Sym.Op != "add" || len(a.Sym.Args) != 2 {
+		return 0, nil, nil, false
+	}
+	for i := 0; i < 2; i++ {
+		xs, c := a.Sym.Args[i], a.Sym.Args[1-i]
+		if c.Op != "shl" || c.Args[0].Op != "shr" || int(c.Args[0].K.Int64()) != a.W-1 {
+			continue
+		}
+		d := c.Args[0].Args[0]
+		if d.Op == "sub" && d.Args[0].Key == xs.Key && d.Args[1].Key == b.Sym.Key {
+			return int(c.K.Int64()), xs, b.Sym, true
+		}
+	}
+	return 0, nil, nil, false
+}
+
 // Sub is a - b.
-func Sub(a, b Val) (Val, []Flag) {
+func Sub(a, b Val) (Val, []Flag) { return SubB(a, b, nil) }
+
+// SubB is Sub with access to recorded bounds (for the borrow idiom written as x + (b<<k) - y).
+func SubB(a, b Val, bounds func(*Sym) (lo, hi *big.Int, ok bool)) (Val, []Flag) {
 	w, sg := a.W, a.Signed
+	if !sg && bounds != nil {
+		if k, x, y, ok := isBorrowCompensation2(a, b); ok {
+			_, xh, ok1 := bounds(x)
+			_, yh, ok2 := bounds(y)
+			if ok1 && ok2 && xh.Cmp(pow2(k)) < 0 && yh.Cmp(pow2(k)) <= 0 {
+				r := Range(big0, new(big.Int).Sub(pow2(k), big1), w, false)
+				r.Sym = symBin("sub", a.Sym, b.Sym, w)
+				return r, nil
+			}
+		}
+	}
 	r := Val{W: w, Signed: sg}
 	r.Sym = symBin("sub", a.Sym, b.Sym, w)
 	lo := new(big.Int).Sub(a.Lo, b.Hi)
